@@ -1,10 +1,10 @@
 (* Extraction of the basis descriptor / BAS file model (C04, C14). *)
 From Coq Require Extraction.
 From Coq Require Import ExtrOcamlBasic QArith List String.
-From SV Require Import BasisModel BasisFileModel.
+From SV Require Import BasisModel BasisFileModel BasisChangeModel.
 
 Extraction "../extract/C04/model.ml" isBasisValid_rep isBasisValid isDescValid loadDesc loadDesc_rowrep initialDesc
   setBasis getBasis mark_fixed zero_only_free
   sp_setBasis sp_hasBasis sp_getBasis sp_rowStatus sp_colStatus sp_getBasisInd
   writeBasis writeBasisOutside readBasis readBasisFile readBasisFile_intended writeBasisFile writeBasisFileOutside
-  default_names accum_names free_ok.
+  default_names accum_names free_ok removed_rows removed_cols.
